@@ -107,8 +107,8 @@ def match_finding(findings, pid, obligation=None, clause=None, signature=None):
     m = f.get('match', {})
     if obligation is not None and m.get('obligation') == obligation:
       return f
-    if clause is not None and m.get('clause') == clause and \
-        m.get('signature') in (None, signature):
+    if clause is not None and m.get('clause') == clause and (
+        m.get('signature') == signature or signature in m.get('signatures', ())):
       return f
   return None
 
